@@ -8,6 +8,7 @@ import Driver.RpcEngine
 import Driver.SPEngine
 import Driver.PTEngine
 import Driver.PXEngine
+import Driver.COEngine
 /-! Line-protocol driver: one operation per input line; for every line the driver prints the
     model's observations (lines starting with `O `) followed by a line containing a single `.`.
     Core Lean only (linked as an executable). -/
@@ -33,6 +34,7 @@ def stepLine (st : DState) (toks : List String) : DState × List String :=
   | "SP" :: rest => (st, spStep rest)
   | "PT" :: rest => (st, ptStep rest)
   | "PX" :: rest => (st, pxStep rest)
+  | "CO" :: rest => (st, coStep rest)
   | "RI" :: rest => let (c, obs) := riStep st.cont rest
                     ({ st with cont := c }, obs)
   | "LRU" :: rest => let (c, obs) := lruStepD st.cont rest
